@@ -11,7 +11,7 @@ T_RPO = 'T4 RPO hash (miden-crypto hash_elements / merge_in_domain) uninterprete
 PROPS = {
     'C05': {
         'level': 'proof',
-        'units': ['stack', 'ops_field', 'ops_stack', 'ops_u32'],
+        'units': ['stack', 'ops_field', 'ops_stack', 'ops_u32', 'ops_sys'],
         'kani': [],
         'trusted_base': [T_FELT, T_TOOLS],
         'not_decided': ['text->AST parser (assembly/src/ast/parsers): string handling outside both verifiers'],
